@@ -55,9 +55,10 @@ impl SourceSpan { #[verifier::external_body] pub fn new(start: usize, end: usize
 @@Lexer@@
 impl<'a> Lexer<'a> {
     /// the cursor is on a char boundary inside the input; the line / column counters cannot overflow
+    /// the part of the invariant the slicing helpers need
+    pub open spec fn cursor_ok(&self) -> bool { self.position <= blen(self.input) && boundary(self.input, self.position as int) }
     pub open spec fn wf(&self) -> bool {
-        self.position <= blen(self.input) && boundary(self.input, self.position as int)
-        && self.column <= self.position + 1 && self.line <= self.position + 1 && blen(self.input) < u32::MAX - 1
+        self.cursor_ok() && self.column <= self.position + 1 && self.line <= self.position + 1 && blen(self.input) < u32::MAX - 1
     }
     pub open spec fn moved_from(&self, o: &Lexer<'a>) -> bool { self.wf() && self.input == o.input && self.position >= o.position }
 
@@ -161,11 +162,11 @@ def build(repo):
     f.body_start('proof { axiom_str(input); }')
 
     f = str_rules(u.method(SRC, 'Lexer', 'current_char').D1().ret('r'))
-    f.requires('cursor_on_boundary', 'self.wf()')
+    f.requires('cursor_on_boundary', 'self.cursor_ok()')
     f.ensures('char_here', '(self.position < blen(self.input) ==> r == char_at(self.input, self.position as int)) && (self.position == blen(self.input) ==> r == \'\\0\')')
 
     f = str_rules(u.method(SRC, 'Lexer', 'peek_char').D1().ret('r'))
-    f.requires('next_byte_is_a_boundary', 'self.wf() && (self.position + 1 < blen(self.input) ==> boundary(self.input, self.position + 1))')
+    f.requires('next_byte_is_a_boundary', 'self.cursor_ok() && (self.position + 1 < blen(self.input) ==> boundary(self.input, self.position + 1))')
     f.body_start(AX)
 
     f = str_rules(u.method(SRC, 'Lexer', 'advance').D1())
